@@ -23,11 +23,13 @@ RULE = ("reads: the C01 expression grammar (sweeps over all operand values for w
         "sign reinterpretation, rotations); the same value is written (A) with ctx.set(target, v), (B) by the "
         "statement target.eq(v) in a clocked circuit whose registers start in the same state, (C) in the reference "
         "per-bit model; the complete state must be identical in all three after every write. castable: struct/"
-        "enum-shaped signals round-trip through from_bits/const. Non-trivial: reads of depth>=2; writes whose "
+        "enum-shaped signals round-trip through from_bits/const (incl. signals and memory rows shaped by signed enumerations with negative "
+        "members). arrays: array proxies with signed, too wide or too narrow indices, read and written from the testbench "
+        "and by a circuit - only agreement between the two is demanded. Non-trivial: reads of depth>=2; writes whose "
         "target nests >=2 constructs or addresses bits outside the target or a memory row. Distinct by canonical-JSON hash.")
 ASSUMPTIONS = [
     "Same input-domain restrictions as C01 for expressions.",
-    "One assignment never addresses the same bit twice (Cat parts use disjoint signals).",
+    "Where one assignment addresses a bit twice (a concatenation naming a signal twice) the parts are taken in order, the later one deciding, as the simulator does for the same statement in a circuit (design B is the oracle for this).",
     "In design B a memory row is modelled as a register of the row's shape (statements cannot assign memory rows).",
 ]
 QUICK_SHARDS = 4
@@ -157,6 +159,24 @@ def write_cases(draw, n_writes):
             later = ["wsel", ["sig", y], ["sig", x], draw(INT(1, 2))]
         # parts must not address one bit twice: the array alternatives / part-select base exclude x itself
         targets.append(["cat", [["sig", x], later]] if draw(BOOL) else ["cat", [later, ["sig", x]]])
+    # a concatenation that names the same signal (or overlapping slices of it) more than once: an assignment statement
+    # assigns the parts in order, so the later part decides; a testbench write must do the same (also when the later
+    # part happens to restore the value the signal has at that moment)
+    if sigs_ and draw(INT(0, 2)) == 0:
+        x = PICK(draw, small or sigs_)
+        wx = env[x][0]
+        cut = draw(INT(0, wx))
+        other = [["sig", k] for k in sigs_ if k != x][:1]
+        form = draw(INT(0, 3))
+        if form == 0:
+            parts = [["sig", x], ["sig", x]]
+        elif form == 1:
+            parts = [["slice", ["sig", x], 0, cut], ["sig", x]]
+        elif form == 2:
+            parts = [["sig", x]] + other + [["slice", ["sig", x], cut, wx]]
+        else:
+            parts = [["sig", x]] + other + [["sig", x]]
+        targets.append(["cat", parts])
     writes = []
     for _ in range(n_writes):
         ins = [draw(value_of_shape(*env[i])) for i in range(n_in)]
@@ -280,6 +300,18 @@ def write_body(ctx, case):
         return False
     if any(self_indexed(t) for t in targets):
         keys.append("write:index-written-by-same-assignment")
+    def named_twice(t):
+        if t[0] != "cat":
+            return False
+        seen = []
+        for p_ in t[1]:
+            for k_ in R.lhs_signals(p_, set()):
+                if k_ in seen:
+                    return True
+            seen += list(R.lhs_signals(p_, set()))
+        return False
+    if any(named_twice(t) for t in targets):
+        keys.append("write:signal-named-twice-in-one-target")
     if outside[0]:
         keys.append("write:outside-target")
     if has_row:
@@ -301,7 +333,11 @@ def castable_cases(draw):
             w, s = draw_shape(draw, 5)
             fields.append([f"f{i}", "int", w, s])
     raws = [draw(st.integers(0, (1 << 24) - 1)) for _ in range(4)]
-    return {"fields": fields, "raws": raws}
+    # a signal shaped directly by an enumeration whose shape is signed (members may be negative)
+    sw = draw(INT(1, 4))
+    # (0 is always a member: the default value of an enumeration-shaped signal or memory row is its member 0)
+    svals = sorted(set([0] + [draw(INT(-(1 << (sw - 1)), (1 << (sw - 1)) - 1)) for _ in range(draw(INT(1, 4)))]))
+    return {"fields": fields, "raws": raws, "senum": {"w": sw, "values": svals}}
 
 
 def castable_body(ctx, case):
@@ -338,7 +374,7 @@ def castable_body(ctx, case):
             sim.set(sig.as_value(), raw)
             c = sim.get(sig)
             if c.as_bits() != raw:
-                err.append(dict(kind="from_bits/as_bits", raw=raw, actual=c.as_bits())); return
+                err.append(dict(what="from_bits/as_bits", raw=raw, actual=c.as_bits())); return
             off = 0
             legal = True
             for f in case["fields"]:
@@ -356,23 +392,128 @@ def castable_body(ctx, case):
                 if f[1] == "enum":
                     got = got.value if hasattr(got, "value") else got
                 if got != exp:
-                    err.append(dict(kind="get-field", raw=raw, field=f, expected=exp, actual=repr(got))); return
+                    err.append(dict(what="get-field", raw=raw, field=f, expected=exp, actual=repr(got))); return
                 py[f[0]] = enums[f[0]](exp) if f[1] == "enum" else exp
                 off += w
             # writing back what was read is the identity
             sim.set(sig.as_value(), 0)
             sim.set(sig, c)
             if sim.get(sig.as_value()) != raw:
-                err.append(dict(kind="set(get) not identity", raw=raw, actual=sim.get(sig.as_value()))); return
+                err.append(dict(what="set(get) not identity", raw=raw, actual=sim.get(sig.as_value()))); return
             # writing Python-level field values gives the same bits
             sim.set(sig.as_value(), (1 << width) - 1)
             sim.set(sig, py)
             if sim.get(sig.as_value()) != raw:
-                err.append(dict(kind="set(dict)", raw=raw, actual=sim.get(sig.as_value()))); return
-    run_tb(m, tb)
+                err.append(dict(what="set(dict)", raw=raw, actual=sim.get(sig.as_value()))); return
+    se = case.get("senum")
+    if se:
+        ns = am_enum.EnumType.__prepare__("SE", (am_enum.Enum,))
+        for j, v in enumerate(se["values"]):
+            ns[f"M{j}"] = v
+        SE = am_enum.EnumType("SE", (am_enum.Enum,), ns, shape=signed(se["w"]))
+        m0 = SE(se["values"][0])
+        es = Signal(SE, name="es", init=m0)
+        erow = MemoryData(shape=SE, depth=2, init=[m0, m0])
+        m.submodules.emem = emem = am_memory.Memory(erow)
+        emem.read_port(domain="comb")
+        keep = Signal(se["w"])
+        m.d.comb += keep.eq(Value.cast(es))
+
+    async def tb_all(sim):
+        await tb(sim)
+        if err or not se:
+            return
+        for v in se["values"]:
+            sim.set(Value.cast(es), v)
+            try:
+                got = sim.get(es)
+            except ValueError as e:      # the value is a member: the conversion has nothing to refuse
+                err.append(dict(what="get of a signed enumeration", value=v, actual=f"ValueError: {e}")); return
+            if not isinstance(got, SE) or got.value != v:
+                err.append(dict(what="get of a signed enumeration", value=v, actual=repr(got))); return
+            sim.set(Value.cast(es), se["values"][0])
+            sim.set(es, SE(v))
+            if sim.get(Value.cast(es)) != v:
+                err.append(dict(what="set of a signed enumeration member", value=v, actual=sim.get(Value.cast(es)))); return
+            sim.set(erow[1], SE(v))
+            try:
+                got = sim.get(erow[1])
+            except ValueError as e:
+                err.append(dict(what="memory row of a signed enumeration", value=v, actual=f"ValueError: {e}")); return
+            if not isinstance(got, SE) or got.value != v:
+                err.append(dict(what="memory row of a signed enumeration", value=v, actual=repr(got))); return
+    run_tb(m, tb_all)
     if err:
         raise Mismatch("castable", fields=case["fields"], **err[0])
-    ctx.note(case, len(case["fields"]) >= 2, "castable:enum" if enums else "castable:ints", evals=len(case["raws"]))
+    keys = ["castable:enum" if enums else "castable:ints"]
+    if se and any(v < 0 for v in se["values"]): keys.append("castable:signed-enum-negative-member")
+    ctx.note(case, len(case["fields"]) >= 2, *keys, evals=len(case["raws"]) + (len(se["values"]) if se else 0))
+
+
+# ------------------------------------------------------------------------------------------ arrays with any index
+@st.composite
+def array_cases(draw):
+    """Array proxies whose index may be signed, wider than needed or too narrow to reach every element: nothing but
+    agreement between the testbench and a circuit is demanded (the reference grammar only has in-range indices)."""
+    n = draw(INT(1, 5))
+    ew, es = draw_shape(draw, 4)
+    iw = draw(INT(0, 3)); isg = draw(BOOL) and iw > 0
+    steps = [[draw(value_of_shape(iw, isg)), draw(value_of_shape(max(ew, 1), True))] for _ in range(draw(INT(2, 8)))]
+    return {"n": n, "elem": [ew, es], "index": [iw, isg], "inits": [draw(value_of_shape(ew, es)) for _ in range(n)],
+            "steps": steps, "nested": draw(INT(0, 3)) == 0}
+
+
+def array_body(ctx, case):
+    from amaranth.hdl import Array
+    n, (ew, es), (iw, isg) = case["n"], case["elem"], case["index"]
+    with warnings.catch_warnings():
+        warnings.simplefilter("ignore")
+        mA, mB = Module(), Module()
+        cd = ClockDomain("sync"); mB.domains += cd
+        eA = [Signal(B.mkshape(ew, es), name=f"e{i}", init=case["inits"][i]) for i in range(n)]
+        eB = [Signal(B.mkshape(ew, es), name=f"e{i}", init=case["inits"][i]) for i in range(n)]
+        iA, iB = Signal(B.mkshape(iw, isg), name="idx"), Signal(B.mkshape(iw, isg), name="idx")
+        vin = Signal(signed(8))
+        def proxy(elems, idx):
+            if case["nested"]:        # a slice of the selected element
+                return Array(elems)[idx][:max(ew - 1, 0)]
+            return Array(elems)[idx]
+        rdA = Signal(B.mkshape(max(ew, 1), es), name="rd")
+        mA.d.comb += rdA.eq(proxy(eA, iA))
+        mB.d.sync += proxy(eB, iB).eq(vin)
+        simB = Simulator(mB)
+    fail = []
+    trace = []
+
+    async def tbB(c):
+        for idx, v in case["steps"]:
+            c.set(iB, idx); c.set(vin, v)
+            c.set(cd.clk, 1); c.set(cd.clk, 0)
+            trace.append([c.get(x) for x in eB])
+
+    async def tbA(c):
+        for k, (idx, v) in enumerate(case["steps"]):
+            c.set(iA, idx)
+            got, circ = c.get(proxy(eA, iA)), c.get(rdA)
+            w = max(ew - 1, 0) if case["nested"] else ew
+            if (got - circ) % (1 << max(w, 1)) and w:
+                fail.append(Mismatch("array-read-differs-from-circuit", step=k, index=idx, testbench=got, circuit=circ)); return
+            c.set(proxy(eA, iA), v)
+            now = [c.get(x) for x in eA]
+            if now != trace[k]:
+                fail.append(Mismatch("array-write-differs-from-circuit", step=k, index=idx, value=v, testbench=now,
+                                     circuit=trace[k])); return
+    with warnings.catch_warnings():
+        warnings.simplefilter("ignore")
+        simB.add_testbench(tbB); simB.run()
+        run_tb(mA, tbA)
+    if fail:
+        raise fail[0]
+    keys = ["array:index-signed" if isg else "array:index-unsigned"]
+    if isg and any(i < 0 for i, _ in case["steps"]): keys.append("array:negative-index")
+    if not isg and any(i >= n for i, _ in case["steps"]): keys.append("array:index-beyond-the-last-element")
+    if (1 << iw) < n or (isg and (1 << (iw - 1)) < n): keys.append("array:elements-the-index-cannot-reach")
+    ctx.note(case, len(keys) >= 2, *keys, evals=2 * len(case["steps"]))
 
 
 def parts(tier):
@@ -383,9 +524,12 @@ def parts(tier):
              n=400 if q else 4000),
         Part("writes", "hyp", strategy=write_cases(6 if q else 12), body=write_body, n=400 if q else 4000),
         Part("castable", "hyp", strategy=castable_cases(), body=castable_body, n=100 if q else 1000),
+        Part("arrays", "hyp", strategy=array_cases(), body=array_body, n=150 if q else 2000),
     ]
 
 
 REQUIRED = ["read:zero-width-operand", "read-sweep:probe", "read:depth3", "write:nest2", "write:nest3",
             "write:outside-target", "write:memory-row", "write:negative-value", "wlhs:cat", "wlhs:bsel",
-            "wlhs:wsel", "wlhs:arr", "wlhs:slice", "wlhs:u", "castable:enum", "write:index-written-by-same-assignment"]
+            "wlhs:wsel", "wlhs:arr", "wlhs:slice", "wlhs:u", "castable:enum", "write:index-written-by-same-assignment",
+            "castable:signed-enum-negative-member", "array:negative-index", "array:index-beyond-the-last-element",
+            "array:elements-the-index-cannot-reach", "write:signal-named-twice-in-one-target"]
